@@ -171,16 +171,31 @@ Fixpoint collect (k : nat) (pr : list (option edge)) (v0 v : nat) (acc : list ed
 
 Inductive bf_result := Potentials (d : list Q) | PosCycle (w : list edge) | Unknown.
 
+(* try every vertex as the start of the predecessor walk; the first start whose walk passes closed_walk_ok wins *)
+Fixpoint first_cycle (n : nat) (es : list edge) (pr : list (option edge)) (starts : list nat) : option (list edge) :=
+  match starts with
+  | [] => None
+  | v :: t =>
+      let v' := back (S n) pr v in
+      let w := collect (S n) pr v' v' [] in
+      if closed_walk_ok es w then Some w else first_cycle n es pr t
+  end.
+
+Lemma first_cycle_ok n es pr starts w : first_cycle n es pr starts = Some w -> closed_walk_ok es w = true.
+Proof.
+  induction starts as [|v t IH]; cbn [first_cycle]; [discriminate|].
+  destruct (closed_walk_ok es (collect (S n) pr (back (S n) pr v) (back (S n) pr v) [])) eqn:E.
+  - intros [= <-]. exact E.
+  - exact IH.
+Qed.
+
 Definition detect (n : nat) (cs : list con) : bf_result :=
   let es := edges_of cs in
   let st := rounds (S n) es (repeat 0 n, repeat None n) in
   if potentials_ok es (fst st) then Potentials (fst st)
-  else match find (fun e => negb (esatb (place_of (fst st)) e)) es with
+  else match first_cycle n es (snd st) (seq 0 n) with
+       | Some w => PosCycle w
        | None => Unknown
-       | Some e =>
-           let v := back (S n) (snd st) (eto e) in
-           let w := collect (S n) (snd st) v v [] in
-           if closed_walk_ok es w then PosCycle w else Unknown
        end.
 
 Theorem detect_poscycle_sound vs cs w :
@@ -188,9 +203,8 @@ Theorem detect_poscycle_sound vs cs w :
 Proof.
   unfold detect. set (es := edges_of cs). set (st := rounds _ _ _).
   destruct (potentials_ok es (fst st)); [discriminate|].
-  destruct (find _ es) as [e|]; [|discriminate].
-  set (w' := collect _ _ _ _ _). destruct (closed_walk_ok es w') eqn:E; [|discriminate].
-  intros [= <-] x F. apply (closed_walk_infeasible es w' (pot_of vs x) E).
+  destruct (first_cycle (length vs) es (snd st) (seq 0 (length vs))) as [w'|] eqn:E; [|discriminate].
+  intros [= <-] x F. apply (closed_walk_infeasible es w' (pot_of vs x) (first_cycle_ok _ _ _ _ _ E)).
   apply feasible_edges. exact F.
 Qed.
 
@@ -221,7 +235,7 @@ Proof.
   intros WV WC. unfold detect. set (es := edges_of cs). set (st := rounds _ _ _).
   destruct (potentials_ok es (fst st)) eqn:E.
   - intros [= <-]. apply potentials_feasible; assumption.
-  - destruct (find _ es); [|discriminate]. destruct (closed_walk_ok _ _); discriminate.
+  - destruct (first_cycle _ _ _ _); discriminate.
 Qed.
 
 (* the two answers exclude each other, so on every run that does not say Unknown the detector DECIDES feasibility *)
